@@ -99,6 +99,15 @@ class FibModel:
             return _M(f)
         raise Unsupported(f'NameTrie.{name}')
 
+    def getitem(self, it, key, node):
+        k = zint(key.kid)
+        if not it.run.branch(z3.Select(self.dom, k), 'fib.has_key'):
+            it.raise_(KeyError, 'key', node=node)
+        return NodeRef(self, key.kid)
+
+    def contains(self, it, key, node):
+        return z3.Select(self.dom, zint(key.kid))
+
     def delitem(self, it, key, node):
         k = zint(key.kid)
         if not it.run.branch(z3.Select(self.dom, k), 'fib.has_key'):
